@@ -395,6 +395,8 @@ pub fn run(r: &mut Runner) {
     r.probe("regress:doctype-any-case", |c| probe_doc(c, "Tagging", "<Tagging><!DOCTyPET><TagSet></TagSet></Tagging>", "accepts-malformed:unknown-token"));
     r.probe("regress:attribute-empty-local-part", |c| probe_doc(c, "Tagging", "<Tagging xmlns:=\"x\"><TagSet></TagSet></Tagging>", "accepts-malformed:invalid-attribute"));
     r.probe("regress:form-feed-before-root", |c| probe_doc(c, "Tagging", "\u{c}<Tagging><TagSet></TagSet></Tagging>", "accepts-malformed:text-before-root"));
+    r.probe("regress:char-ref-to-non-char", |c| probe_doc(c, "Tagging", "<Tagging><TagSet><Tag><Key>a&#x4;b</Key><Value>v</Value></Tag></TagSet></Tagging>", "accepts-malformed:character-reference-to-a-non-XML-character"));
+    r.probe("regress:literal-line-ends", |c| probe_doc(c, "Tagging", "<Tagging><TagSet><Tag><Key>a\r\nb\rc</Key><Value>v&#xD;</Value></Tag></TagSet></Tagging>", "retraction:line-ends"));
     r.probe("regress:unknown-entity-in-skipped-text", |c| probe_doc(c, "Tagging", "<Tagging>&Lt;<TagSet></TagSet></Tagging>", "accepts-malformed:unterminated-entity"));
     let n_types = codecs().len() as u64;
     r.note(format!("{n_types} XML codec types read from the tree"));
